@@ -40,8 +40,11 @@ func resultStored(ret *ssa.Return, i int) ssa.Value {
 	for j := len(b.Instrs) - 1; j >= 0; j-- {
 		if st, ok := b.Instrs[j].(*ssa.Store); ok && st.Addr == ssa.Value(al) {
 			if l2, ok := st.Val.(*ssa.UnOp); ok && l2.Op == token.MUL && l2.X == ssa.Value(al) {
-				// "return v" of the named result itself: the value set earlier, if that was in this block
-				return lastStoreBefore(al, l2)
+				// "return v" of the named result itself: the value set earlier
+				if v := lastStoreBefore(al, l2); v != nil {
+					return v
+				}
+				return reachingStore(al, l2)
 			}
 			return st.Val
 		}
@@ -145,7 +148,13 @@ func c04Publication(c *Ctx, m *Module, pfx string) {
 			}
 			seen[v] = true
 			if p2, ok := v.(*ssa.Phi); ok {
-				for _, e := range p2.Edges {
+				// edges that cannot lead to the link attempt (the lookup stage left with an error,
+				// merged with the value the variable had before) do not count
+				dead := deadEdges(p2.Block(), factsAt(linkCAS))
+				for i, e := range p2.Edges {
+					if dead[i] {
+						continue
+					}
 					if !chk(e, seen) {
 						return false
 					}
@@ -189,7 +198,70 @@ func c04Publication(c *Ctx, m *Module, pfx string) {
 	r.Check(pfx+".duplicate-check", "newCounter/walks the new chain elements after a lost race", m.Pos(nc.Pos()), walkEntry != nil && hasFact(factsAt(walkEntry), func(f Fact) bool { return f.Cond == ssa.Value(linkCAS) && !f.Pol }),
 		"after a failed link CAS the records prepended meanwhile must be inspected")
 	if walkEntry != nil {
+		// the walk is complete: it starts at the freshly loaded head, steps through the records'
+		// next words, and goes back to the link attempt only when it has arrived at the head
+		// the failed attempt expected — an EQUALITY with that head, not an ordering of offsets
+		// (chain order is link order: a record reserved early and linked late has a small offset)
+		{
+			var wl *loopInfo
+			for _, l := range naturalLoops(nc) {
+				if l.blocks[walkEntry.Block()] && (wl == nil || len(l.blocks) < len(wl.blocks)) {
+					wl = l
+				}
+			}
+			okWalk, detail := wl != nil, "the walk is not a loop"
+			if wl != nil {
+				off, _ := strip(walkEntry.Call.Args[1]).(*ssa.Phi)
+				if off == nil || off.Block() != wl.header {
+					okWalk, detail = false, "the offset walked is not the loop's variable: "+shortDesc(describe(walkEntry.Call.Args[1]))
+				} else {
+					for i, e := range off.Edges {
+						inside := wl.blocks[off.Block().Preds[i]]
+						e = strip(e)
+						if inside {
+							if ex, ok := e.(*ssa.Extract); !ok || ex.Tuple != ssa.Value(walkEntry) || ex.Index != 1 {
+								okWalk, detail = false, "the walk must step to the record's next word; steps to "+shortDesc(describe(e))
+							}
+						} else {
+							cl, ok := e.(*ssa.Call)
+							if !ok || calleeName(&cl.Call) != "(*internal/counter.mappedFile).load32" || describeArg(cl, 1) != describe(la[1]) {
+								okWalk, detail = false, "the walk must start at the head just loaded from the bucket; starts at "+shortDesc(describe(e))
+							}
+						}
+					}
+					nBack := 0
+					for b := range wl.blocks {
+						ifi, ok := b.Instrs[len(b.Instrs)-1].(*ssa.If)
+						if !ok {
+							continue
+						}
+						for k, succ := range b.Succs {
+							if wl.blocks[succ] || !(succ == linkCAS.Block() || blockReaches(succ, linkCAS.Block())) {
+								continue
+							}
+							// an exit of the walk that leads back to a link attempt
+							nBack++
+							bo, isB := ifi.Cond.(*ssa.BinOp)
+							eqExit := isB && ((bo.Op == token.EQL && k == 0) || (bo.Op == token.NEQ && k == 1))
+							if !eqExit {
+								okWalk, detail = false, "the walk is left for another link attempt on a condition that is not 'offset == old head': "+shortDesc(describe(ifi.Cond))
+								continue
+							}
+							x, y := strip(bo.X), strip(bo.Y)
+							if !((x == ssa.Value(off) && y == strip(la[2])) || (y == ssa.Value(off) && x == strip(la[2]))) {
+								okWalk, detail = false, "the walk must end at the head the failed link attempt expected; compares "+shortDesc(describe(bo))
+							}
+						}
+					}
+					if nBack == 0 {
+						okWalk, detail = false, "no way back from the walk to the link attempt"
+					}
+				}
+			}
+			r.Check(pfx+".duplicate-check", "newCounter/the walk covers every record in front of the old head", m.Pos(walkEntry.Pos()), okWalk, detail)
+		}
 		nMatch := 0
+		matchSeen := map[ssa.Value]bool{} // exits that differ only in the OTHER results count once
 		isMatch := func(f Fact) bool {
 			bo, ok := f.Cond.(*ssa.BinOp)
 			if !ok || !assertsEq(bo, f.Pol) {
@@ -202,13 +274,21 @@ func c04Publication(c *Ctx, m *Module, pfx string) {
 			ret := ex.ret
 			if os.Getenv("VERIF_DEBUG_EXITS") != "" {
 				fmt.Printf("EXIT %s vals=%s | %s | %s nfacts=%d\n", m.Pos(ret.Pos()), shortDesc(describe(ex.vals[0])), shortDesc(describe(ex.vals[1])), shortDesc(describe(ex.vals[2])), len(ex.facts))
+				if os.Getenv("VERIF_DEBUG_EXITS") == "2" {
+					for _, f := range ex.facts {
+						fmt.Printf("      %v %s\n", f.Pol, shortDesc(describe(f.Cond)))
+					}
+				}
 			}
 			// under string(ename) == name
 			if !hasFact(ex.facts, isMatch) {
 				continue
 			}
-			nMatch++
 			v := refine(ex.vals[0], ex.facts)
+			if !matchSeen[v] {
+				nMatch++
+			}
+			matchSeen[v] = true
 			okV := false
 			if e, ok := v.(*ssa.Extract); ok && e.Tuple == ssa.Value(walkEntry) && e.Index == 2 {
 				okV = true
@@ -375,17 +455,16 @@ func c04Growth(c *Ctx, m *Module, nc *ssa.Function, walkEntry *ssa.Call) {
 	r := c.R
 	loops := naturalLoops(nc)
 	n := 0
-	for _, b := range nc.Blocks {
-		ret, ok := b.Instrs[len(b.Instrs)-1].(*ssa.Return)
-		if !ok {
-			continue
-		}
-		ev := resultStored(ret, 2)
+	for _, ex := range exitPaths(nc) {
+		// one Return can stand for several exits (results collected in variables): each way of
+		// reaching it with errCorrupt as the error is a corruption report of its own
+		ret := ex.ret
+		ev := refine(ex.vals[2], ex.facts)
 		if ev == nil || describe(ev) != "*global:internal/counter.errCorrupt" {
 			continue
 		}
 		n++
-		facts := factsAt(ret)
+		facts := ex.facts
 		// which failure led here?
 		lookupFailed := hasFact(facts, func(f Fact) bool {
 			d := describe(f.Cond)
